@@ -176,3 +176,72 @@ Definition srv1_create (k apid : Z) (tc_hdr : sph) (step : option pfe) (fn : opt
            (timestamp : bytes) : res srv1 :=
   srv1_new apid k timestamp
     (Some {| vp_req := reqid_from_sph tc_hdr; vp_step := step; vp_fn := fn |}) 0 0 0 0.
+
+(* ---- operation histories (C15 hardening) ---- *)
+(* VerificationParams is a dataclass: req_id, step_id, failure_notice are public, and so are the
+   attributes of the objects they hold *)
+Inductive vp_op :=
+| VpSetReq (r : reqid) | VpSetStep (s : option pfe) | VpSetFn (f : option fnotice)
+| VpStepVal (v : Z)            (* vp.step_id.val = v : AttributeError when there is no step ID *)
+| VpFnData (d : bytes)         (* vp.failure_notice.data = d *)
+| VpFnCodeVal (v : Z)          (* vp.failure_notice.code.val = v *)
+| VpPack | VpLen | VpVerify (k : Z) | VpObserve.
+
+Definition vp_apply (v : vparams) (o : vp_op) : res vparams :=
+  match o with
+  | VpSetReq r => Ok {| vp_req := r; vp_step := vp_step v; vp_fn := vp_fn v |}
+  | VpSetStep s => Ok {| vp_req := vp_req v; vp_step := s; vp_fn := vp_fn v |}
+  | VpSetFn f => Ok {| vp_req := vp_req v; vp_step := vp_step v; vp_fn := f |}
+  | VpStepVal x =>
+      match vp_step v with
+      | None => Err EAttribute
+      | Some s => Ok {| vp_req := vp_req v; vp_step := Some {| pfe_pfc := pfe_pfc s; pfe_val := x |};
+                        vp_fn := vp_fn v |}
+      end
+  | VpFnData d =>
+      match vp_fn v with
+      | None => Err EAttribute
+      | Some f => Ok {| vp_req := vp_req v; vp_step := vp_step v;
+                        vp_fn := Some {| fn_code := fn_code f; fn_data := d |} |}
+      end
+  | VpFnCodeVal x =>
+      match vp_fn v with
+      | None => Err EAttribute
+      | Some f => Ok {| vp_req := vp_req v; vp_step := vp_step v;
+                        vp_fn := Some {| fn_code := {| pfe_pfc := pfe_pfc (fn_code f); pfe_val := x |};
+                                         fn_data := fn_data f |} |}
+      end
+  | VpPack | VpLen | VpVerify _ | VpObserve => Ok v
+  end.
+
+(* Service1Tm: pack (fills the telemetry object's CRC cache), the tc_req_id setter (stores the
+   request ID in the verification parameters; the source data are NOT rebuilt), assignments
+   through the public pus_tm attribute, decoding the object's own output *)
+Inductive s1_op :=
+| S1Pack | S1Observe | S1ErrorCode
+| S1SetReq (r : reqid)
+| S1SetSeqCount (v : Z)        (* s.pus_tm.space_packet_header.seq_count = v *)
+| S1SetApid (v : Z)            (* s.pus_tm.apid = v *)
+| S1Redecode (ws we : Z)       (* s = Service1Tm.unpack(s.pack() + suffix, UnpackParams(len(timestamp), ws, we)) *)
+| S1Roundtrip (ws we : Z).     (* observe that, keep the object *)
+
+Definition srv1_with_tm (s : srv1) (t : tm) : srv1 := {| s1_tm := t; s1_vp := s1_vp s |}.
+
+Definition srv1_redecode (s : srv1) (ws we : Z) : res (srv1 * srv1) :=
+  do p <- srv1_pack s;
+  do u <- srv1_unpack (fst p ++ [165; 90])
+            {| up_ts_len := len (tms_stamp (tm_sec (s1_tm s))); up_step := ws; up_err := we |};
+  Ok (u, snd p).
+
+Definition srv1_apply (s : srv1) (o : s1_op) : res srv1 :=
+  match o with
+  | S1Pack => do p <- srv1_pack s; Ok (snd p)
+  | S1SetReq r => Ok (set_req s r)
+  | S1SetSeqCount v => Ok (srv1_with_tm s
+      {| tm_sph := sph_apply (tm_sph (s1_tm s)) (SoCount v); tm_sec := tm_sec (s1_tm s);
+         tm_src := tm_src (s1_tm s); tm_crc := tm_crc (s1_tm s) |})
+  | S1SetApid v => do t <- tm_apply (s1_tm s) (TmSetApid v); Ok (srv1_with_tm s t)
+  | S1Redecode ws we => do r <- srv1_redecode s ws we; Ok (fst r)
+  | S1Roundtrip ws we => do r <- srv1_redecode s ws we; Ok (snd r)   (* pack() filled the CRC cache *)
+  | S1Observe | S1ErrorCode => Ok s
+  end.
